@@ -4,7 +4,7 @@ import json
 import os
 import random
 
-from ..engines import envelope
+from ..engines import envelope, threads
 from ..gen import entries as gentries, jsonvals, keys as gkeys
 from ..monitors import boundary
 from ..refs import canonjson, ed25519, models, openpgp
@@ -50,6 +50,8 @@ def plan(tier, seed):
         s = {"kind": "fixtures", "config": c["name"]}
         s.update({k: v for k, v in c.items() if k != "name"})
         specs.append(s)
+    for T in ([4, 8] if tier == "quick" else [2, 4, 8, 16]):
+        specs.append({"kind": "threads", "threads": T, "count": 250 if tier == "quick" else 2000, "config": "default"})
     if tier == "thorough":
         specs.append({"kind": "bigjunk", "count": 6, "config": "default"})
     return specs
@@ -211,7 +213,18 @@ def run_bigjunk(spec, rec, lib):
         judge(case, rec, lib, "bigjunk")
 
 
+def run_threads(spec, rec, lib):
+    rng = random.Random(spec["seed"])
+    for case, model, out in threads.run(lib, rng, spec["count"], spec["threads"], rec, spec["seed"]):
+        rec.case("thr|%d|%s" % (spec["threads"], envelope.distinct_key(case)), nontrivial=model.v == models.ACCEPT)
+        if model.v == models.ACCEPT and not out.accepted:
+            rec.violation(boundary.mechanism("false-reject", "verify_signable[threads]", "accept", out),
+                          "sufficiently signed envelope rejected under %d concurrent threads" % spec["threads"], dict(case, config="default"))
+
+
 def run_shard(spec, rec, lib):
+    if spec["kind"] == "threads":
+        return run_threads(spec, rec, lib)
     {"env": run_env, "libsigner": run_libsigner, "fixtures": run_fixtures, "bigjunk": run_bigjunk}[
         spec["kind"]
     ](spec, rec, lib)
